@@ -32,6 +32,8 @@ type Env struct {
 	defers    []deferred
 	clock     Term // allocation clock
 	postFrame *postFrame
+	delegated int
+	aliasTy   map[string]types.Type
 	trace     Term // ghost event trace (sequence id)
 	tlen      Term
 }
@@ -39,7 +41,10 @@ type Env struct {
 func (e *Env) clone() *Env {
 	n := &Env{vars: make(map[types.Object]Term, len(e.vars)), heaps: make(map[string]Term, len(e.heaps)),
 		tags: make(map[string]int, len(e.tags)), alias: make(map[string]Term, len(e.alias)), held: make(map[string]string, len(e.held)),
-		clock: e.clock, trace: e.trace, tlen: e.tlen}
+		clock: e.clock, trace: e.trace, tlen: e.tlen, delegated: e.delegated, aliasTy: make(map[string]types.Type, len(e.aliasTy))}
+	for k, v := range e.aliasTy {
+		n.aliasTy[k] = v
+	}
 	for k, v := range e.vars {
 		n.vars[k] = v
 	}
